@@ -15,7 +15,7 @@ import (
 
 func init() {
 	Register("C13", "Decides, on finite tables extracted from the source: (grammar) the number recogniser json/scanner.go is a DFA over <state function, finished flag>; its driver contract holds and the DFA is language-equivalent to the RFC 8259 number grammar (product construction, every mismatch reported with a shortest witness); (pred) Equal/GreaterThan/... are the right truth tables over Cmp in {-1,0,1}, Cmp's sign logic is correct including equal magnitudes, `not` is total on {-1,0,1}, and negative zero is normalised; (ovf) integer accumulation is overflow-guarded and exponent-driven allocation is bounded. Does NOT decide the digit-wise comparison loops, exponent shifting, String() or LengthOfFractionalPart().",
-		c13grammar, c13pred, c13ovf)
+		c13grammar, c13pred, c13norm, c13ovf)
 }
 
 // ---- RFC 8259 number reference DFA ----
@@ -409,5 +409,52 @@ func c13ovf(c *core.Ctx) {
 			o.Key = strings.Replace(o.Key, "C02.ovf@", "C13.ovf@", 1)
 			c.Obs = append(c.Obs, o)
 		}
+	}
+}
+
+// c13norm: every successful return of Scan went through the normalisation steps.
+func c13norm(c *core.Ctx) {
+	const R = "C13.norm"
+	c.Rule(R, "must-pass-through: every return of (*json.scanner).Scan that yields a number (non-nil first result) is dominated by the calls to setExp, trimLeadingZerosInTheIntegerPart and trimTrailingZerosInTheFractionalPart and by the zero-sign test: Cmp compares the normalised digit strings, so a number that skips a step (a fast path for plain integers, an early return) compares wrongly with equal values written differently (0 vs 0.0, -0 vs 0)")
+	c.Floor(R, 1)
+	scan := c.P.Method("json", "scanner", "Scan")
+	if scan == nil {
+		c.Unresolved(R, "(*json.scanner).Scan")
+		return
+	}
+	steps := map[string]*ssa.BasicBlock{}
+	for _, b := range scan.Blocks {
+		for _, in := range b.Instrs {
+			if call, ok := in.(*ssa.Call); ok {
+				if sc := call.Call.StaticCallee(); sc != nil {
+					switch sc.Name() {
+					case "setExp", "trimLeadingZerosInTheIntegerPart", "trimTrailingZerosInTheFractionalPart":
+						steps[sc.Name()] = b
+					}
+				}
+			}
+		}
+	}
+	n := 0
+	for _, b := range scan.Blocks {
+		ret, ok := b.Instrs[len(b.Instrs)-1].(*ssa.Return)
+		if !ok || len(ret.Results) != 2 {
+			continue
+		}
+		if cst, isC := ret.Results[0].(*ssa.Const); isC && cst.Value == nil {
+			continue // error return
+		}
+		n++
+		var missing []string
+		for _, name := range []string{"setExp", "trimLeadingZerosInTheIntegerPart", "trimTrailingZerosInTheFractionalPart"} {
+			sb := steps[name]
+			if sb == nil || !(sb == b || sb.Dominates(b)) {
+				missing = append(missing, name)
+			}
+		}
+		c.Check(len(missing) == 0, R, core.F("Scan:success-return#%d", n), c.P.Pos(ret.Pos()), "successful return of Scan passes through every normalisation step", core.F("a number is returned without passing through %v: equal values written differently no longer compare equal", missing))
+	}
+	if n == 0 {
+		c.Bad(R, "Scan:success-return", c.P.Pos(scan.Pos()), "successful return of Scan", "undecided: no return with a non-nil number found")
 	}
 }
